@@ -17,10 +17,11 @@ func init() {
 			ruleALBump(c)
 			ruleBTWidth(c, true)
 			ruleSKFail(c)
+			ruleSelFold(c)
 		})
 
 	register("C03",
-		"Decides framing-level necessary conditions of C03: every framing the Avro 1.8 specification allows for a schema type — any number of array/map blocks, with or without byte sizes, selector then branch with null in either position — is accepted by the Read and the Skip automaton of every codec built for that type (WA-SPEC-R, WA-SPEC-S, WA-NEG); the nullable-union codecs take the value branch's index from the schema and compare the decoded selector with it (BT-NONNULL); integer destinations are written only within their exact range (RC-RANGE) and every (schema type, Go kind) pair is width-exact or rejected (BT-WIDTH); reader and writer agree on the three compression codec names (CT-AGREE); each file block decodes exactly its declared count (OD-LOOP).  The file reader zeroes the destination with its own type before every record, so a null branch leaves the zero value and not the previous record (OD-CLEAR).  No Read or Skip refuses on a presumption about how much input a value needs (SK-FAIL), and no decoded value is a view of the block buffer that the next block overwrites (AL-BUF). "+
+		"Decides framing-level necessary conditions of C03: every framing the Avro 1.8 specification allows for a schema type — any number of array/map blocks, with or without byte sizes, selector then branch with null in either position — is accepted by the Read and the Skip automaton of every codec built for that type (WA-SPEC-R, WA-SPEC-S, WA-NEG); the nullable-union codecs take the value branch's index from the schema and compare the decoded selector with it (BT-NONNULL); integer destinations are written only within their exact range (RC-RANGE) and every (schema type, Go kind) pair is width-exact or rejected (BT-WIDTH); reader and writer agree on the three compression codec names (CT-AGREE); each file block decodes exactly its declared count (OD-LOOP).  The file reader zeroes the destination with its own type before every record, so a null branch leaves the zero value and not the previous record (OD-CLEAR).  No Read or Skip refuses on a presumption about how much input a value needs (SK-FAIL), and no decoded value is a view of the block buffer that the next block overwrites (AL-BUF).  A record field is stored at the offset and with the type of the target struct's own field of that name — taken from typ.Field(i) of the target type, names matched exactly — and the record reader visits every schema field once, in order (BT-REC, SG-NAMES, REC-LIST, BT-SENTINEL). "+
 			"Not decided: decoded values.",
 		func(c *Ctx) {
 			ruleWASpec(c, "RS")
@@ -40,6 +41,13 @@ func init() {
 			ruleALBuf(c)
 			ruleALBump(c)
 			ruleCDPure(c)
+			ruleSelFold(c)
+			ruleODAccept(c, s)
+			ruleFLTotal(c)
+			ruleBTRec(c)
+			ruleSGNames(c)
+			ruleRecList(c)
+			ruleBTSentinel(c)
 		})
 
 	register("C13",
@@ -53,6 +61,9 @@ func init() {
 			ruleWAWR(c, nil, 27)
 			ruleWASpec(c, "W")
 			ruleWAIdx(c)
+			ruleWAZero(c)
+			ruleSGNames(c)
+			ruleSelFold(c)
 			ruleEFU(c, "", 4)
 			rulePCArg(c, nil, 18, 3)
 			ruleBTWidth(c, true)
@@ -64,8 +75,10 @@ func init() {
 			ruleTSNarrow(c)
 			ruleTSFloor(c)
 			ruleCDPure(c)
+			ruleValFold(c)
 			ruleVarStd(c)
 			ruleOMValid(c)
+			ruleFLTotal(c)
 		})
 }
 
@@ -85,12 +98,14 @@ func init() {
 			ruleLKShared(c)
 			ruleSGSeen(c)
 			ruleRegExact(c)
+			ruleRegOverwrite(c)
+			ruleSGRepeat(c)
 		})
 }
 
 func init() {
 	register("C14",
-		"Decides structural clauses of C14 on the hand-written marshal/unmarshal pair: the JSON names of the schema object's attributes are the Avro attribute names, pairwise distinct (JS-TAG); every success path of the object form writes BeginObject (name value)* EndObject (JS-BAL); each name written is followed by the value of the field that carries that JSON name, with \"type\" taken from the hoisted Schema.Type (JS-KEY); every attribute is written somewhere and each complex type writes exactly the attribute the specification gives it (JS-EXH); parsing dispatches on string/array/object, hoists Type out of the object and clears it there, rejects other tokens (JS-HOIST), and propagates the JSON library's errors (ER-CHECK); serialising constructs no error of its own, so every schema that was parsed or generated can be written out again (JS-TOTAL). "+
+		"Decides structural clauses of C14 on the hand-written marshal/unmarshal pair: the JSON names of the schema object's attributes are the Avro attribute names, pairwise distinct (JS-TAG); every success path of the object form writes BeginObject (name value)* EndObject (JS-BAL); each name written is followed by the value of the field that carries that JSON name, with \"type\" taken from the hoisted Schema.Type (JS-KEY); every attribute is written somewhere and each complex type writes exactly the attribute the specification gives it (JS-EXH); parsing dispatches on string/array/object, hoists Type out of the object and clears it there, rejects other tokens (JS-HOIST), and propagates the JSON library's errors (ER-CHECK); serialising constructs no error of its own, so every schema that was parsed or generated can be written out again (JS-TOTAL); nothing the parse or the serialisation reaches uses package-level state other than initialisation-time tables, so a parse depends on its document alone (JS-PURE). "+
 			"Not decided: independence from key order and unknown attributes (the JSON library's struct decoding), and that re-parsing yields an identical value.",
 		func(c *Ctx) {
 			ruleJS(c)
@@ -98,6 +113,7 @@ func init() {
 			ruleJSTotal(c)
 			ruleJSAccept(c)
 			ruleJSTagOptions(c)
+			ruleJSPure(c)
 			c.Rule("ER-CHECK", erClauses["ER-CHECK"], 3)
 			schemaT := c.P.NamedType(c.P.Avro, "Schema")
 			for _, name := range []string{"UnmarshalJSONFrom"} {
@@ -113,9 +129,11 @@ func init() {
 
 func init() {
 	register("C01",
-		"Decides necessary conditions of the encode-then-read round trip, writer against reader and schema generator against codec builder: everything each codec's Write emits is accepted by its own Read (WA-WR); length prefixes and item counts are those of the data written (WA-LEN, WA-CNT); on the generated-schema path every Go kind gets a codec of exactly its width (BT-WIDTH) and Read, Write and Omit of one codec agree on what the pointer is (PC-METH); pointers are always wrapped in a union because the pointer codec writes nothing for nil (BT-PTRWRAP); schema generation and codec construction take field names and the omit flag from the same helpers (SG-NAMES); the schema in the header is the one the codec was built from (ENC-SAME); the target is cleared before each record (OD-CLEAR).  Added after seed round 5: varints are written only by the standard encoder (VAR-STD) and Omit is true only on a zero test of the value (OM-ZERO).  What is handed to the decompressor is exactly the bytes read for this block (OD-LEN, OD-FLOW).  A validity wrapper is written as null exactly when its Valid flag is false, whatever payload it carries (OM-VALID); no decoded value is a view of the reusable block buffer (AL-BUF). "+
+		"Decides necessary conditions of the encode-then-read round trip, writer against reader and schema generator against codec builder: everything each codec's Write emits is accepted by its own Read (WA-WR); length prefixes and item counts are those of the data written (WA-LEN, WA-CNT); on the generated-schema path every Go kind gets a codec of exactly its width (BT-WIDTH) and Read, Write and Omit of one codec agree on what the pointer is (PC-METH); pointers are always wrapped in a union because the pointer codec writes nothing for nil (BT-PTRWRAP); schema generation and codec construction take field names and the omit flag from the same helpers (SG-NAMES); the schema in the header is the one the codec was built from (ENC-SAME); the target is cleared before each record (OD-CLEAR).  Added after seed round 5: varints are written only by the standard encoder (VAR-STD) and Omit is true only on a zero test of the value (OM-ZERO).  What is handed to the decompressor is exactly the bytes read for this block (OD-LEN, OD-FLOW).  A validity wrapper is written as null exactly when its Valid flag is false, whatever payload it carries (OM-VALID); no decoded value is a view of the reusable block buffer (AL-BUF).  Every occurrence of a struct type in the generated schema carries the record of that struct's own fields — schema generation is folded for a struct using one named type twice and two unnamed types (SG-REPEAT). "+
 			"Not decided: equality of values for all types, values and configurations.",
 		func(c *Ctx) {
+			ruleSGRepeat(c)
+			ruleSKFail(c)
 			ruleWAWR(c, nil, 27)
 			ruleWALenCnt(c)
 			ruleBTWidth(c, true)
@@ -134,6 +152,8 @@ func init() {
 			ruleOMValid(c)
 			ruleALBuf(c)
 			ruleWAIdx(c)
+			ruleValFold(c)
+			ruleFLTotal(c)
 		})
 
 	register("C02",
@@ -159,6 +179,9 @@ func init() {
 			ruleOMValid(c)
 			ruleWAIdx(c)
 			ruleBTWidth(c, true)
+			ruleValFold(c)
+			ruleTSMult(c)
+			ruleTSStr(c)
 			if enc := findEncoder(c.P); enc.ctor != nil {
 				ruleENCHdr(c, enc.ctor)
 			}
@@ -171,6 +194,7 @@ func init() {
 			ruleRCRange(c)
 			ruleRCVarint(c)
 			ruleUVFold(c)
+			ruleValFold(c)
 			ruleC17(c)
 			ruleBTWidth(c, true)
 		})
@@ -187,13 +211,17 @@ func init() {
 			ruleNilObj(c)
 			rulePanicReach(c)
 			ruleBTSubNil(c)
+			ruleNilNew(c)
+			ruleERUse(c)
 			s := findReadFile(c.P)
 			c.Rule("NIL-IFACE", "no nil interface value can reach the receiver of the decompress call", 1)
-			if s.decompress != nil {
+			if rfDecide(c, "codec") {
+			} else if s.decompress != nil {
 				rt := readerCompTable(c.P, s)
 				c.Check(!rt.nilSrc, fnKey(s.fn)+"/decompress-receiver", c.P.pos(s.decompress.Pos()), "every value flowing into the receiver of decompress is non-nil", "a nil interface flows into the receiver of decompress")
 			}
 			ruleTLDiv(c)
+			ruleNilLoc(c)
 			ruleUVFold(c)
 			c.Assume = append(c.Assume, "int is 64 bits: int(v) of a decoded int64 preserves the value")
 			c.Note("not decided: termination (a huge count with zero-width items loops for a long time), panics inside compress/flate, snappy, json; recursion depth")
@@ -227,7 +255,9 @@ func init() {
 			"Not decided: calendar validity (day 29-31 against the month, leap seconds), what time.Date and time.FixedZone do with the numbers, inputs longer than the folded lengths for the no-panic clause (they differ only in the number of fraction digits), non-ASCII bytes inside the fraction beyond an over-approximation of the UTF-8 step. ",
 		func(c *Ctx) {
 			ruleParseTime(c)
+			ruleNilLoc(c)
 			rulePTPure(c)
+			ruleTSStr(c)
 			ruleTLIdx(c)
 			c.Rule("ER-CHECK", erClauses["ER-CHECK"], 8)
 			if fn := c.P.Func(c.P.Time, "parseTime"); fn != nil {
